@@ -21,8 +21,8 @@ RULE = ("case = document built from value shapes {bare defined key, bare undefin
 ASSUMPTIONS = ["unique entry keys and unique field keys per entry (collisions are C09's subject)"]
 MIN = {"field_value_model": (30000, 300000), "metadata_model": (10000, 100000), "strings_unchanged": (10000, 100000)}
 
-DEFS = [("s", "{X}"), ("s", '"Y y"'), ("S", "{Z}"), ("t", "s"), ("t", "{a} # {b}"), ("s", "12"), ("s", "t"), ("u", "u"), ("st", "{W}"), ("k-2", "{P}"), ("a:b.c+d", "{Q}")]
-NAMES = ["s", "S", "t", "u", "st", "k-2", "a:b.c+d"]
+DEFS = [("s", "{X}"), ("s", '"Y y"'), ("S", "{Z}"), ("t", "s"), ("t", "{a} # {b}"), ("s", "12"), ("s", "t"), ("u", "u"), ("st", "{W}"), ("k-2", "{P}"), ("a:b.c+d", "{Q}"), ("jan", '"Januar"')]
+NAMES = ["s", "S", "t", "u", "st", "k-2", "a:b.c+d", "jan"]
 
 
 def values():
@@ -37,13 +37,14 @@ def exhaustive(tier):
             "before or after the entry")
 
 
+FIELD_NAMES = ["f0", "f1", "month", "Month", "author"]      # distinct within one entry for up to 4 fields
 ENTRY_KEYS = ["s", "e1", "t", "S"]      # entry keys that are also macro names (separate key spaces)
 
 
 def render(defs_before, entries, defs_after):
     parts = ["@string{%s = %s}" % d for d in defs_before]
     for i, fields in enumerate(entries):
-        parts.append("@misc{%s, %s}" % (ENTRY_KEYS[i % len(ENTRY_KEYS)], ", ".join("f%d = %s" % (j, v) for j, v in enumerate(fields))))
+        parts.append("@misc{%s, %s}" % (ENTRY_KEYS[i % len(ENTRY_KEYS)], ", ".join("%s = %s" % (FIELD_NAMES[(i + j) % len(FIELD_NAMES)] if j else FIELD_NAMES[i % 2 * 2], v) for j, v in enumerate(fields))))
     parts += ["@string{%s = %s}" % d for d in defs_after]
     return "\n".join(parts) + "\n"
 
@@ -73,7 +74,8 @@ def cases(tier, seed, shard, nshards):
             blocks.append("@%s{%s%s%s=%s%s%s}" % (r.choice(["string", "String", "STRING"]), r.choice(ws), k, r.choice(ws), r.choice(ws), v, r.choice(ws)))
         for e in range(ne):
             nf = r.randint(1, 4)
-            fs = ",".join("%sf%d%s=%s%s%s" % (r.choice(ws), j, r.choice(ws), r.choice(ws), r.choice(vs), r.choice(ws)) for j in range(nf))
+            fn = r.sample(["f0", "f1", "f2", "month", "Month", "year", "author", "crossref"], nf)
+            fs = ",".join("%s%s%s=%s%s%s" % (r.choice(ws), fn[j], r.choice(ws), r.choice(ws), r.choice(vs), r.choice(ws)) for j in range(nf))
             blocks.append("@article{%s,%s%s}" % (["s", "k1", "t", "st"][e], fs, r.choice(["", ",", " , "])))
         if r.random() < .3:
             blocks.append("% free text s t S")
